@@ -85,6 +85,12 @@ def rec_field(I, obj, attr, node):
         has = accessor(dcls, attr + '__has', z3.ArraySort(z3.StringSort(), z3.BoolSort()))(obj.t)
         val = accessor(dcls, attr + '__val', z3.ArraySort(z3.StringSort(), TY.Obj))(obj.t)
         return SV('smap', {'has': has, 'val': val}, extra={'elem': ('rec', fty[1])})
+    if isinstance(fty, tuple) and fty[0] == 'kmap':
+        # a dict field with keys of one scalar type: (has, val) arrays over the key sort
+        ks, vs = TY.smt_sort(fty[1]), TY.smt_sort(fty[2])
+        has = accessor(dcls, attr + '__has', z3.ArraySort(ks, z3.BoolSort()))(obj.t)
+        val = accessor(dcls, attr + '__val', z3.ArraySort(ks, vs))(obj.t)
+        return SV('kmap', {'has': has, 'val': val}, extra={'key': fty[1], 'elem': fty[2]})
     if isinstance(fty, tuple) and fty[0] == 'const':
         return I.eval(ast.parse(fty[1], mode='eval').body, I.registry.global_frame(I, 'common'))
     return wrap_term(I, fty, accessor(dcls, attr, TY.smt_sort(fty))(obj.t))
@@ -313,6 +319,15 @@ def get_item(I, obj, key, node):
         if not I.spec and not I.path.decide(z3.Select(obj.t['has'], key.t)):
             I.raise_('KeyError', node)
         return wrap_term(I, obj.extra['elem'], z3.Select(obj.t['val'], key.t))
+    if obj.kind == 'kmap':
+        kt = kmap_key_term(I, obj, key, node)
+        if kt is None:
+            if I.spec:
+                I.oos(node, f"key of kind {key.kind} into a {obj.extra['key']}-keyed map")
+            I.raise_('KeyError', node)           # a key of another type is never equal to a key of the map
+        if not I.spec and not I.path.decide(z3.Select(obj.t['has'], kt)):
+            I.raise_('KeyError', node)
+        return wrap_term(I, obj.extra['elem'], z3.Select(obj.t['val'], kt))
     if obj.kind in ('clist', 'tuple'):
         ci = const_int(as_int_term(key)) if key.kind in ('int', 'bool') else None
         if ci is None:
@@ -399,6 +414,29 @@ def set_item(I, obj, key, v, node):
     I.oos(node, f"subscript store on {obj.kind}")
 
 
+def kmap_key_term(I, obj, key, node):
+    """the key as a term of the map's key sort, or None when a key of this kind can never be in the map.  int / float
+    keys that may be equal across the two types (1 == 1.0 hash alike) are outside the subset."""
+    kt = obj.extra['key']
+    if kt == 'int':
+        if key.kind in ('int', 'bool'):
+            return as_int_term(key)
+        if key.kind == 'real':
+            I.oos(node, "float key into an int-keyed map")
+        return None
+    if kt == 'real':
+        if key.kind == 'real':
+            return key.t
+        if key.kind in ('int', 'bool'):
+            return z3.ToReal(as_int_term(key))
+        return None
+    if kt == 'bytes':
+        return I.as_bytes(key) if I.is_byteslike(key) else None
+    if kt == 'str':
+        return key.t if key.kind == 'str' else None
+    I.oos(node, f"map keyed by {kt}")
+
+
 def clamp_index(I, idx, n):
     """Python slice index normalisation for step 1: negative counts from the end, then clamp to [0, n]."""
     c = const_int(idx)
@@ -416,6 +454,13 @@ def get_slice(I, obj, lo, hi, node):
         hi_t = clamp_index(I, as_int_term(hi), n) if hi is not None and hi.kind != 'none' else n
         hi_t = z3.If(hi_t < lo_t, lo_t, hi_t)
         lo_t, hi_t = z3.simplify(lo_t), z3.simplify(hi_t)
+        if lo is not None and hi is not None and lo.kind != 'none' and hi.kind != 'none' and \
+                (z3.is_app_of(lo_t, z3.Z3_OP_ITE) or z3.is_app_of(hi_t, z3.Z3_OP_ITE)):
+            # bounds that the path condition already places inside the buffer need no clamping: keep the plain terms
+            lo_p, hi_p = as_int_term(lo), as_int_term(hi)
+            inside = z3.And(0 <= lo_p, lo_p <= hi_p, hi_p <= n)
+            if not I.path._feasible(z3.And(n >= 0, z3.Not(inside))):
+                return mk_bytes(T.window(b, lo_p, hi_p))
         return mk_bytes(T.sl(b, lo_t, hi_t))
     if obj.kind in ('clist', 'tuple'):
         n = len(obj.t)
